@@ -16,6 +16,11 @@ package presence_test
 //     from presIdent) and the device attributes of cfg.conns[c]
 //   - pending token k       -> the k-th token the directory issued in the current
 //     incarnation of that hash slot (0 or unknown -> a token never issued)
+//
+// Behaviours come from two generators: specs/Presence/Sim.tla (VERIF_BEH) and
+// specs/Presence/SimBuckets.tla (sim stage "buckets", $VERIF_BEH_DIR/beh_buckets.jsonl: one hash slot
+// holding many routes with many distinct activity seconds). Every fourth driver trace ("bucket mode")
+// runs the same kind of workload with activity seconds 1..600.
 
 import (
 	"errors"
